@@ -2,6 +2,7 @@ package sim
 
 import (
 	"fmt"
+	"os"
 	"sort"
 	"strings"
 
@@ -70,6 +71,11 @@ func execC15(sc *Scenario, post []Op, plan []simrt.Preempt, first int, endCh []i
 	s := simrt.NewSched(fns, Budget, plan)
 	s.EndChoice = endCh
 	s.DetectRaces = detect
+	s.Quantum = sc.Quantum
+	if sc.NoFD {
+		w.FS.NoFD = true
+		defer func() { w.FS.NoFD = false }()
+	}
 	if !s.Run(first) {
 		res.watchdog = true
 		return res, true
@@ -108,6 +114,11 @@ func c15Check(sc *Scenario, post []Op, base map[string]Obs, r c15Run) *c15Diff {
 		for oi, op := range sc.Tasks[ti] {
 			exp := base[opKey(op)]
 			if got := r.obs[ti][oi]; got.Key() != exp.Key() {
+				if sc.NoFD && got.Kind == "err" && strings.Contains(got.Err, "too many open files") {
+					// the injected fault, reported as such: a call may fail because the process has no
+					// descriptor left; it may not succeed with anything but what it returns alone
+					continue
+				}
 				k := "diverge"
 				if got.Kind == "abort" && strings.Contains(got.Err, "deadlock") {
 					k = "deadlock"
@@ -285,6 +296,12 @@ func tasksSummary(ts [][]Op) []string {
 }
 
 func genC15(r *Rng, tier string) (*Scenario, []Op) {
+	sc, post, _ := genC15Alpha(r, tier)
+	return sc, post
+}
+
+// genC15Alpha also returns the operation alphabet the tasks were drawn from.
+func genC15Alpha(r *Rng, tier string) (*Scenario, []Op, []Op) {
 	sc, t, alpha := genC16Tree(r)
 	sc.Prop = "C15"
 	// rendering entry points only, with healthy writers (writer faults are C17's)
@@ -342,12 +359,76 @@ func genC15(r *Rng, tier string) (*Scenario, []Op) {
 		sc.Tasks = append(sc.Tasks, task)
 	}
 	if cold {
-		return sc, nil
+		return sc, nil, ops
 	}
 	for _, p := range t.Pages {
 		sc.Ops = append(sc.Ops, Op{Kind: "string", Name: p, Data: t.Data})
 	}
-	return sc, postOps(sc)
+	switch c := r.Intn(100); {
+	case c < 2:
+		// many callers inside the entry points at once: 140 tasks issue the same one or two calls and
+		// advance in lockstep (round-robin time slices), the schedule a burst of requests produces
+		sc.Family = "many"
+		var cand []Op
+		for _, o := range ops {
+			if o.Kind == "response" || o.Kind == "evalfile" || (o.Kind == "string" && r.Chance(30)) {
+				cand = append(cand, o)
+			}
+		}
+		a, b := Pick(r, cand), Pick(r, cand)
+		if r.Chance(60) {
+			// a render that fails late and is followed by the error page: the longest nesting of entry points
+			for _, o := range ops {
+				if o.Kind == "response" && o.Name == "pagefail" {
+					a = o
+				}
+			}
+		}
+		sc.Tasks = nil
+		for i := 0; i < 140; i++ {
+			o := a
+			if i%3 == 2 {
+				o = b
+			}
+			sc.Tasks = append(sc.Tasks, []Op{o})
+		}
+		sc.Quantum = -int64(Pick(r, []int{10, 40, 160})) // negative: slices per call; fixed once the call's length is known
+	case c < 6:
+		// the process runs out of file descriptors while several tasks evaluate the same files; one
+		// successful evaluation of each file has happened before (setup)
+		sc.Family = "nofd"
+		var files []Op
+		for _, o := range ops {
+			if o.Kind == "evalfile" {
+				files = append(files, o)
+			}
+		}
+		files = append(files, Op{Kind: "evalfile", Name: t.path("allfuncs"), Data: BuiltinSweepData()})
+		sc.Tasks = nil
+		hot := files[len(files)-1]
+		if r.Chance(40) {
+			hot = Pick(r, files)
+		}
+		sc.Setup = append(sc.Setup, hot)
+		for i := 0; i < r.Range(2, 4); i++ {
+			task := []Op{hot}
+			if r.Chance(40) {
+				task = append(task, Pick(r, files))
+			}
+			sc.Tasks = append(sc.Tasks, task)
+		}
+		sc.NoFD = true
+	case c < 16:
+		// every task issues the same call: the first calls of their kind on a freshly loaded Template
+		sc.Family = "same-call"
+		o := Pick(r, ops)
+		n := len(sc.Tasks)
+		sc.Tasks = nil
+		for i := 0; i < n; i++ {
+			sc.Tasks = append(sc.Tasks, []Op{o})
+		}
+	}
+	return sc, postOps(sc), ops
 }
 
 func (p c15) Run(seed uint64, run int, tier string, acc *Acc) *Violation {
@@ -362,6 +443,14 @@ func (p c15) Run(seed uint64, run int, tier string, acc *Acc) *Violation {
 		acc.Probe("setup-failed", 1)
 		return nil
 	}
+	if sc.Quantum < 0 {
+		// time slice = the length of the first task's call / the wanted number of slices
+		q := base[opKey(sc.Tasks[0][0])].Steps / -sc.Quantum
+		if q < 1 {
+			q = 1
+		}
+		sc.Quantum = q
+	}
 	// dry run: no preemption
 	dry, ok := execC15(sc, post, nil, 0, nil, true)
 	if !ok {
@@ -373,6 +462,9 @@ func (p c15) Run(seed uint64, run int, tier string, acc *Acc) *Violation {
 		return nil
 	}
 	acc.Evals++
+	if os.Getenv("TWSIM_DEBUG") != "" {
+		fmt.Fprintf(os.Stderr, "debug: C15 run %d family=%s tasks=%d quantum=%d nofd=%v first=%s deadlock=%v switches=%d\n", run, sc.Family, len(sc.Tasks), sc.Quantum, sc.NoFD, sc.Tasks[0][0], dry.sched.Deadlock, dry.sched.Switches)
+	}
 	if d := c15Check(sc, post, base, dry); d != nil {
 		return p.violation(sc, post, base, d, dry)
 	}
@@ -394,7 +486,14 @@ func (p c15) Run(seed uint64, run int, tier string, acc *Acc) *Violation {
 	if tier == "thorough" {
 		nsched, maxk = 24, 6
 	}
-	acc.Probe("family/"+map[bool]string{true: "cold-start", false: "after-load"}[sc.Family == "cold"], 1)
+	fam := sc.Family
+	if fam == "" {
+		fam = "after-load"
+	}
+	acc.Probe("family/"+fam, 1)
+	if sc.NoFD {
+		acc.Fault("out-of-file-descriptors", 1)
+	}
 	if run%53 == 0 {
 		acc.Sample(map[string]any{"family": sc.Family, "tasks": tasksSummary(sc.Tasks), "task_steps": steps})
 	}
